@@ -107,6 +107,14 @@ type failConn struct {
 	mu       sync.Mutex
 	failN    int
 	attempts int
+	// gate: while hold is set every WriteTo blocks (after it has been counted as an attempt) until Release lets
+	// exactly one writer through or Unhold opens the gate. The write is the one point of a spoof-loop iteration
+	// (and of ProcessPacket, Scan) the harness can stop the REAL handler at: lookup and check have happened,
+	// the frame is decided, nothing is on the wire yet.
+	hold    bool
+	blocked int // writers that have arrived at the gate (cumulative)
+	passed  int // writes completed (cumulative)
+	gate    chan struct{}
 }
 
 func (c *failConn) WriteTo(b []byte, a net.Addr) (int, error) {
@@ -116,17 +124,85 @@ func (c *failConn) WriteTo(b []byte, a net.Addr) (int, error) {
 	if fail {
 		c.failN--
 	}
-	c.mu.Unlock()
-	if fail {
-		return 0, errors.New("injected write error")
+	hold, gate := c.hold, c.gate
+	if hold {
+		c.blocked++
 	}
-	return c.RecConn.WriteTo(b, a)
+	c.mu.Unlock()
+	if hold {
+		<-gate
+	}
+	var n int
+	var err error
+	if fail {
+		err = errors.New("injected write error")
+	} else {
+		n, err = c.RecConn.WriteTo(b, a)
+	}
+	c.mu.Lock()
+	c.passed++
+	c.mu.Unlock()
+	return n, err
 }
 func (c *failConn) SetFail(k int) { c.mu.Lock(); c.failN = k; c.mu.Unlock() }
 func (c *failConn) Attempts() int {
 	c.mu.Lock()
 	defer c.mu.Unlock()
 	return c.attempts
+}
+func (c *failConn) Hold() {
+	c.mu.Lock()
+	c.hold = true
+	c.gate = make(chan struct{})
+	c.mu.Unlock()
+}
+
+// Unhold opens the gate for good: every writer waiting passes, later writes do not stop.
+func (c *failConn) Unhold() {
+	c.mu.Lock()
+	if c.hold {
+		c.hold = false
+		close(c.gate)
+	}
+	c.mu.Unlock()
+}
+func (c *failConn) counters() (blocked, passed int) {
+	c.mu.Lock()
+	defer c.mu.Unlock()
+	return c.blocked, c.passed
+}
+
+// WaitBlocked waits until more than seen writers have arrived at the gate.
+func (c *failConn) WaitBlocked(seen int, max time.Duration) bool {
+	deadline := time.Now().Add(max)
+	for time.Now().Before(deadline) {
+		if b, _ := c.counters(); b > seen {
+			return true
+		}
+		time.Sleep(50 * time.Microsecond)
+	}
+	return false
+}
+
+// Release lets exactly one waiting writer through and waits until its write is done.
+func (c *failConn) Release(max time.Duration) bool {
+	_, p0 := c.counters()
+	c.mu.Lock()
+	gate := c.gate
+	c.mu.Unlock()
+	select {
+	case gate <- struct{}{}:
+	case <-time.After(max):
+		return false
+	}
+	deadline := time.Now().Add(max)
+	for time.Now().Before(deadline) {
+		if _, p := c.counters(); p > p0 {
+			return true
+		}
+		time.Sleep(50 * time.Microsecond)
+	}
+	return false
 }
 
 func (c cfg) session() (*packet.Session, *failConn) {
@@ -249,6 +325,7 @@ func execScript(args []string) (res result) {
 	}
 	closed := false
 	defer func() {
+		conn.Unhold()
 		h.Close()
 		go session.Close() // sleeps 1 s
 	}()
@@ -256,8 +333,11 @@ func execScript(args []string) (res result) {
 	// timed scripts only make sense while this process gets scheduled promptly: a probe goroutine measures
 	// how much a 5 ms sleep oversleeps; a stall above 250 ms voids the run (it is repeated by runCase)
 	timedScript := false
+	heldScript := false // the script stops the handler at its writes (@H): RR / SC / SS tokens are explicit
 	for _, t := range args[1:] {
-		if strings.HasPrefix(t, "@") {
+		if t == "@H" {
+			heldScript = true
+		} else if strings.HasPrefix(t, "@") && t != "@R" && t != "@U" {
 			timedScript = true
 		}
 	}
@@ -295,6 +375,9 @@ func execScript(args []string) (res result) {
 	var lastAt time.Duration = -1 // schedule time of the most recent @ token not yet consumed by a W
 	nInvalid := 0
 	nScans, nInvalidCalls := 0, 0
+	gated := false            // the connection holds every write
+	seenBlocked := 0          // writers seen at the gate so far
+	var bg chan struct{}      // a ProcessPacket / Scan call running in the background while the gate is held
 	seenAttempts := 0
 	take := func() [][]byte { seenAttempts = conn.Attempts(); return conn.Take() }
 	// The session's offer table is the handler's environment: it changes by SetDHCPv4IPOffer but also
@@ -334,6 +417,29 @@ func execScript(args []string) (res result) {
 		}
 	}
 	for _, t := range args[1:] {
+		if t == "@H" || t == "@R" || t == "@U" {
+			// hold the connection / let one blocked write through / open the gate (not events of the model)
+			switch t {
+			case "@H":
+				conn.Hold()
+				gated = true
+				seenBlocked, _ = conn.counters()
+			case "@R":
+				if !conn.Release(2 * time.Second) {
+					res.suspicious = true
+					res.why += "norelease "
+				}
+			case "@U":
+				conn.Unhold()
+				gated = false
+				if bg != nil {
+					<-bg
+					bg = nil
+				}
+			}
+			toks = append(toks, t)
+			continue
+		}
 		if strings.HasPrefix(t, "@") {
 			ms, _ := strconv.Atoi(t[1:])
 			lastAt = time.Duration(ms) * time.Millisecond
@@ -386,23 +492,46 @@ func execScript(args []string) (res result) {
 			toks = append(toks, t)
 			if err != nil {
 				obs = append(obs, "parse-error")
+			} else if gated {
+				// ProcessPacket would block in its write: run it in the background; the script carries the RR token
+				done := make(chan struct{})
+				bg = done
+				go func() { h.ProcessPacket(frame); close(done) }()
+				if conn.WaitBlocked(seenBlocked, 2*time.Second) {
+					seenBlocked++
+				}
+				obs = append(obs, showOut(take()))
 			} else {
 				h.ProcessPacket(frame)
 				// a spoof reply (request branch: sender IP set) is decided by R and written by RR; a probe reject is R's own
-				if f[4] != "00000000" {
-					obs = append(obs, "-", showOut(take()))
+				if heldScript {
+					obs = append(obs, showOut(take()))
 				} else {
-					obs = append(obs, showOut(take()), "-")
+					if f[4] != "00000000" {
+						obs = append(obs, "-", showOut(take()))
+					} else {
+						obs = append(obs, showOut(take()), "-")
+					}
+					toks = append(toks, "RR,0")
 				}
-				toks = append(toks, "RR,0")
 			}
 		case "L", "K":
-			// lookup and check of a loop iteration: nothing to see; the write is the "D" token
+			// lookup and check of a loop iteration: nothing to see; the write is the "D" token. While the gate is
+			// held, "K" waits until the loop stands at its (blocked) write: lookup and check are then behind it.
+			if gated && f[0] == "K" {
+				max := 3 * time.Second
+				if lastAt >= 0 {
+					max = 450 * time.Millisecond
+				}
+				if conn.WaitBlocked(seenBlocked, max) {
+					seenBlocked++
+				}
+			}
 			obs = append(obs, "-")
 			toks = append(toks, t)
 		case "D":
 			// the write of one loop iteration shows up by itself
-			if closed {
+			if closed || gated {
 				time.Sleep(2 * time.Millisecond)
 			} else if lastAt >= 0 {
 				waitAttempt(conn, seenAttempts, 450*time.Millisecond) // ticker wake-up: listen from 150 ms before to 300 ms after the tick
@@ -477,6 +606,15 @@ func execScript(args []string) (res result) {
 		case "AS":
 			// Scan() visits lan+1 .. lan+2^(32-bits)-2; for every address the model takes a ScanCheck and a ScanSend
 			// step; the request whose target is the k-th address is the observation of the k-th ScanSend
+			if gated {
+				done := make(chan struct{})
+				bg = done
+				go func() { h.Scan(); close(done) }()
+				obs = append(obs, "-")
+				toks = append(toks, t)
+				nScans++
+				continue
+			}
 			h.Scan()
 			fs := take()
 			obs = append(obs, "-")
@@ -506,7 +644,21 @@ func execScript(args []string) (res result) {
 			}
 			nScans++
 		case "RR", "SC", "SS":
-			// regenerated by R / X / AS: tokens of a replayed line are dropped here
+			// regenerated by R / X / AS: tokens of a replayed line are dropped here -- except in a held script,
+			// where they stand for themselves (the call runs in the background, the write is released by @R)
+			if heldScript {
+				switch f[0] {
+				case "RR", "SS":
+					time.Sleep(2 * time.Millisecond)
+					obs = append(obs, showOut(take()))
+				case "SC":
+					if gated && conn.WaitBlocked(seenBlocked, 2*time.Second) {
+						seenBlocked++
+					}
+					obs = append(obs, "-")
+				}
+				toks = append(toks, t)
+			}
 		case "AX":
 			// a public send call with an unusable address or MAC
 			calls := invalidCalls(h)
@@ -998,6 +1150,33 @@ func directedTimed() [][]string {
 	}
 }
 
+// scripts that stop the REAL handler at a write (@H ... @R ... @U) and let StopHunt / StartHunt / Close land
+// between a decision and its write: the Lookup/Check/.../Send (RxArp/RxReply, ScanCheck/ScanSend) interleavings
+// of the model, on the implementation. First element: the configuration token.
+func directedHeld() [][]string {
+	m1 := macs[0]
+	std := stdCfg().tok()
+	smallLAN := stdCfg()
+	smallLAN.lan = netip.MustParsePrefix("192.168.0.8/29")
+	who := func(m, sip string) string { return "R,1," + m + "," + m + "," + sip + ",000000000000," + ipRouter }
+	s1 := "S," + m1 + "," + ipA
+	return [][]string{
+		// StopHunt while the first announcement is held: the frame already decided still leaves; restore at the tick
+		{std, "@0", "@H", s1, "L,0", "K,0", "T," + m1, "@R", "D,0,0", "@U", "@5850", "W,0,0"},
+		// Close while the announcement is held: that one frame leaves, then the loop ends silently
+		{std, "@H", s1, "L,0", "K,0", "C", "@R", "D,0,0", "@U", "W,0,0", who(m1, ipA)},
+		// StopHunt and StartHunt again while the announcement is held: a second loop, both frames leave
+		{std, "@H", s1, "L,0", "K,0", "T," + m1, s1, "L,1", "K,1", "@R", "D,0,0", "@R", "D,1,0", "@U"},
+		// StopHunt while the announcement of a TICK is held; restore at the next tick; then silence
+		{std, "@0", s1, "W,0,0", "@5850", "@H", "L,0", "K,0", "T," + m1, "@R", "D,0,0", "@U", "@11850", "W,0,0", "@12400", "W,0,0"},
+		// ProcessPacket: StopHunt / Close between the lookup of the sender and the write of the spoof reply
+		{std, s1, "W,0,0", "@H", who(m1, ipA), "T," + m1, "@R", "RR,0", "@U", who(m1, ipA), "RR,0"},
+		{std, s1, "W,0,0", "@H", who(m1, ipA), "C", "@R", "RR,0", "@U", who(m1, ipA), "RR,0"},
+		// Scan: Close between the h.closed test and the write of a request: that request leaves, the scan ends
+		{smallLAN.tok(), "@H", "AS", "SC,0", "C", "@R", "SS,0", "@U", "SC,0", "SS,0"},
+	}
+}
+
 func fixHints(toks []string) []string {
 	out := make([]string, len(toks))
 	for i, t := range toks {
@@ -1114,6 +1293,14 @@ func main() {
 			runCase(r, script, 4)
 			r.Stat("class.timed-directed", 1)
 		}(script)
+	}
+	for _, d := range directedHeld() {
+		wg.Add(1)
+		go func(script []string) {
+			defer wg.Done()
+			runCase(r, fixHints(script), 4)
+			r.Stat("class.held", 1)
+		}(d)
 	}
 	for _, d := range directed() {
 		runCase(r, append([]string{std}, fixHints(d)...), 1)
